@@ -10,9 +10,10 @@
     Mechanised here: total mass 1 for the finitely supported families (flip,
     bernoulli by probs and by logits, categorical over any non-empty logits,
     binomial for every n), the partial masses 1 - (1-p)^n of geometric and their
-    limit 1, total mass 1 of poisson as a series, normalisation of the
-    continuous families with an elementary CDF (Lemmas/DistCalculus.v), and the
-    shape algebra of sample_shape / vectorised draws.
+    limit 1, total mass 1 of poisson as a series, exponential (rate) and uniform
+    normalised as integrals, density = CDF' for laplace / cauchy / weibull and the
+    two user-wrapped families (Lemmas/DistCalculus.v), and the shape algebra of
+    sample_shape / vectorised draws.
 
     NOT mechanised (partial): normalisation of the families whose normalising
     constant needs the Gaussian integral or the Gamma / Beta / zeta functions as
@@ -22,8 +23,9 @@
     only; and that the TFP samplers draw from the density (checked statistically
     by the correspondence: goodness of fit against an independent reference). *)
 From Coq Require Import Reals QArith List ZArith.
+From Coquelicot Require Import Coquelicot.
+From GV Require Import Model.Dists Lemmas.DistLemmas Lemmas.DistCalculus.
 Import ListNotations.
-From GV Require Import Model.Dists Lemmas.DistLemmas.
 Open Scope R_scope.
 
 Theorem C13_flip_normalised : forall p : Q,
@@ -56,6 +58,61 @@ Theorem C13_geometric_mass : forall (p : Q) (n : nat),
   mass (fun v => spec GeometricProbs [p] [v]) (seq_q n) = 1 - (1 - q2r p) ^ n.
 Proof. intros p n Hp. split; [intros k; apply geom_pmf; exact Hp|apply geometric_partial_mass; exact Hp]. Qed.
 Print Assumptions C13_geometric_mass.
+
+(** the geometric masses sum to 1 in the limit; the poisson masses are a series with sum 1 *)
+Theorem C13_geometric_poisson_total_mass : forall p lam : Q,
+  (0 < q2r p < 1 -> is_lim_seq (fun n => mass (fun v => spec GeometricProbs [p] [v]) (seq_q n)) 1) /\
+  (0 < q2r lam ->
+   is_series (fun k => match spec PoissonRate [lam] [qn k] with Some e => exp (den e) | None => 0 end) 1).
+Proof. intros p lam. split; [apply geometric_total_mass|apply poisson_total_mass]. Qed.
+Print Assumptions C13_geometric_poisson_total_mass.
+
+(** exponential takes a RATE: the specification denotes ln lam - lam x at every rational
+    input; that density is the derivative of 1 - exp(-lam x), integrates to F(b) - F(0)
+    on [0,b], and F rises from 0 to 1 *)
+Theorem C13_exponential_rate_normalised : forall lam : R, 0 < lam ->
+  (forall l x : Q, qle 0 x = true ->
+     exists e, spec ExponentialRate [l] [x] = Some e /\ den e = lpR_exponential (q2r l) (q2r x)) /\
+  (forall x, is_derive (cdf_exponential lam) x (exp (lpR_exponential lam x))) /\
+  (forall b, 0 <= b -> is_RInt (fun x => exp (lpR_exponential lam x)) 0 b
+                               (cdf_exponential lam b - cdf_exponential lam 0)) /\
+  cdf_exponential lam 0 = 0 /\ is_lim (cdf_exponential lam) p_infty 1.
+Proof.
+  intros lam H. split; [intros l x Hx; apply spec_exponential_R; exact Hx|].
+  split; [intros x; apply exponential_pdf_cdf; exact H|].
+  split; [intros b Hb; apply exponential_normalised; assumption|].
+  apply exponential_cdf_limits; exact H.
+Qed.
+Print Assumptions C13_exponential_rate_normalised.
+
+Theorem C13_uniform_normalised : forall a b : R, a < b ->
+  is_RInt (fun _ => exp (lpR_uniform a b)) a b 1.
+Proof. exact uniform_normalised. Qed.
+Print Assumptions C13_uniform_normalised.
+
+(** laplace, cauchy, weibull and the two user-wrapped families: the specified density is
+    the derivative of the family's CDF everywhere in the support (so it integrates to
+    F(b) - F(a) on every interval, lemma pdf_cdf_RInt); laplace's two halves glue at
+    1/2, cauchy's CDF stays inside (0,1).  The limits of these CDFs at the ends of the
+    support are not mechanised (partial). *)
+Theorem C13_cdf_derivatives_partial : forall m s x : R, 0 < s ->
+  (x < m -> is_derive (cdf_laplace_lo m s) x (exp (lpR_laplace m s x))) /\
+  (m < x -> is_derive (cdf_laplace_hi m s) x (exp (lpR_laplace m s x))) /\
+  is_derive (cdf_cauchy m s) x (exp (lpR_cauchy m s x)) /\ 0 < cdf_cauchy m s x < 1 /\
+  is_derive (cdf_logistic m s) x (exp (lpR_logistic m s x)) /\
+  is_derive (cdf_gumbel m s) x (exp (lpR_gumbel m s x)) /\
+  (forall k, 0 < k -> 0 < x -> is_derive (cdf_weibull k s) x (exp (lpR_weibull k s x))).
+Proof.
+  intros m s x Hs.
+  split; [intros H; apply laplace_pdf_cdf_lo; assumption|].
+  split; [intros H; apply laplace_pdf_cdf_hi; assumption|].
+  split; [apply cauchy_pdf_cdf; exact Hs|].
+  split; [apply cauchy_cdf_bounds|].
+  split; [apply logistic_pdf_cdf; exact Hs|].
+  split; [apply gumbel_pdf_cdf; exact Hs|].
+  intros k Hk Hx. apply weibull_pdf_cdf; assumption.
+Qed.
+Print Assumptions C13_cdf_derivatives_partial.
 
 (** sample_shape and vectorisation only prepend dimensions to the shape of a
     plain draw: lanes ++ sample_shape ++ (batch ++ event) *)
